@@ -16,13 +16,21 @@ theorem gen_eq_Sacramento_loopBody1 : @sacramento.loopBody1 = @SacramentoMid.loo
 theorem gen_eq_Sacramento_loopBody2 : @sacramento.loopBody2 = @SacramentoMid.loopBody2 := rfl
 theorem gen_eq_Sacramento_loopBody3 : @sacramento.loopBody3 = @SacramentoMid.loopBody3 := rfl
 theorem gen_eq_Sacramento_loopBody4 : @sacramento.loopBody4 = @SacramentoMid.loopBody4 := rfl
-theorem gen_eq_Sacramento_step : @sacramento.step = @SacramentoMid.step := rfl
+/-- the regenerated step is the copy, with the four loop-invariant capacities the code computes before the loop from the
+parameters alone (`saved`, `alzfsm`, `alzfpm`, `pbase`: `let`s at the top of the regenerated `step`) passed as arguments -/
+theorem gen_eq_Sacramento_step {α} [Num α]
+    (lzpk lzsk uzk uztwm uzfwm lztwm lzfsm lzfpm pfree rexp zperc side ssout pctim adimp sarva rserv uh1 uh2 uh3 uh4 uh5 : α) :
+    sacramento.step lzpk lzsk uzk uztwm uzfwm lztwm lzfsm lzfpm pfree rexp zperc side ssout pctim adimp sarva rserv uh1 uh2 uh3 uh4 uh5 =
+      fun dro => SacramentoMid.step lzpk lzsk uzk uztwm uzfwm lztwm lzfsm lzfpm pfree rexp zperc side ssout pctim adimp sarva rserv
+        uh1 uh2 uh3 uh4 uh5 dro (rserv * (lzfpm + lzfsm)) (lzfsm * (1.0 + side)) (lzfpm * (1.0 + side))
+        (lzfsm * (1.0 + side) * lzsk + lzfpm * (1.0 + side) * lzpk) := rfl
 
 /-- `makeUnitHydrograph` (with `sumSlice`: a `range` loop) = the hand model's -/
 theorem gen_eq_Sacramento_makeUH {α} [Num α] (p : Sacramento.Params α) :
     sacramento.makeUnitHydrograph p.uh1 p.uh2 p.uh3 p.uh4 p.uh5 = Sacramento.makeUnitHydrograph p := rfl
 
-/-- `sacramento`: before the loop the unit hydrograph ordinates and the loop-invariant capacities are `Sacramento.consts`;
+/-- `sacramento`: before the loop the unit hydrograph ordinates are the `dro` of `Sacramento.consts` (the other, scalar, constants
+of `Sacramento.consts` are `let`s of the regenerated `step`);
 the loop starts from the six state parameters, an empty hydrograph buffer `qq = make(nunit)` and `alzfsc, alzfpc` (hidden
 state); one iteration — evaporation, resupply, the passes `for ii` / `for inc` of the drainage and percolation loop, unit
 hydrograph, channel losses — is `Sacramento.step` (all nine carried values and the five outputs), for a buffer of
@@ -33,13 +41,13 @@ theorem gen_eq_Sacramento {α} [Num α] (p : Sacramento.Params α) (s0 s1 s2 s3 
       p.ssout p.pctim p.adimp p.sarva p.rserv p.uh1 p.uh2 p.uh3 p.uh4 p.uh5 = false ∧
     sacramento.pre s0 s1 s2 s3 s4 s5 p.lzpk p.lzsk p.uzk p.uztwm p.uzfwm p.lztwm p.lzfsm p.lzfpm p.pfree p.rexp p.zperc p.side
       p.ssout p.pctim p.adimp p.sarva p.rserv p.uh1 p.uh2 p.uh3 p.uh4 p.uh5 =
-      (let c := Sacramento.consts p; (c.dro, c.saved, c.alzfsm, c.alzfpm, c.pbase)) ∧
+      (Sacramento.consts p).dro ∧
     sacramento.init s0 s1 s2 s3 s4 s5 p.lzpk p.lzsk p.uzk p.uztwm p.uzfwm p.lztwm p.lzfsm p.lzfpm p.pfree p.rexp p.zperc p.side
       p.ssout p.pctim p.adimp p.sarva p.rserv p.uh1 p.uh2 p.uh3 p.uh4 p.uh5 =
       (s0, s1, s2, s3, s4, s5, zeros 5, s4 * (1.0 + p.side), s3 * (1.0 + p.side)) ∧
     (let c := Sacramento.consts p
      sacramento.step p.lzpk p.lzsk p.uzk p.uztwm p.uzfwm p.lztwm p.lzfsm p.lzfpm p.pfree p.rexp p.zperc p.side p.ssout p.pctim
-        p.adimp p.sarva p.rserv p.uh1 p.uh2 p.uh3 p.uh4 p.uh5 c.dro c.saved c.alzfsm c.alzfpm c.pbase st.uztwc st.uzfwc
+        p.adimp p.sarva p.rserv p.uh1 p.uh2 p.uh3 p.uh4 p.uh5 c.dro st.uztwc st.uzfwc
         st.lztwc st.lzfpc st.lzfsc st.adimc st.qq st.alzfsc st.alzfpc rain pet =
       (let r := Sacramento.step p c st (rain, pet)
        ((r.1.uztwc, r.1.uzfwc, r.1.lztwc, r.1.lzfpc, r.1.lzfsc, r.1.adimc, r.1.qq, r.1.alzfsc, r.1.alzfpc),
